@@ -1,8 +1,12 @@
 package main
 
 import (
+	"bytes"
+	"crypto/tls"
 	"fmt"
+	"io"
 	"net/http"
+	"path/filepath"
 	"sort"
 	"strings"
 	"time"
@@ -557,3 +561,171 @@ func init() {
 			}
 		})
 }
+
+// ---- TLS front end with HTTP/2: the same differential idea with net/http clients (direct: HTTP/1.1 to the backend,
+// proxied: HTTP/2 over TLS to Helios, which talks HTTP/1.1 to the backend)
+
+type c01H2 struct {
+	Strategy string `json:"strategy"`
+	Chain    string `json:"chain"`
+	IDs      bool   `json:"ids"`
+}
+
+func init() {
+	vh.AddPart("C01", "tls-http2", "plain", vh.Opts{Shards: 4, Procs: 4, TimeoutS: 300},
+		func(e *vh.Env) []c01H2 {
+			var cs []c01H2
+			for i, st := range allStrategies {
+				cs = append(cs, c01H2{st, []string{"", "logging"}[i%2], i%3 == 0})
+			}
+			cs = append(cs, c01H2{"round_robin", "logging", true})
+			return cs
+		},
+		func(e *vh.Env, c c01H2, o *vh.Out) {
+			o.Need("h2_exchanges_compared")
+			bes := newBackends(2)
+			defer closeBackends(bes)
+			cfg := baseConfig(c.Strategy, bes)
+			if c.Chain != "" {
+				cfg.Plugins = config.PluginsConfig{Enabled: true, Chain: []config.PluginConfig{{Name: c.Chain}}}
+			}
+			cfg.Logging.RequestID.Enabled, cfg.Logging.Trace.Enabled = c.IDs, c.IDs
+			cfg.Server.TLS = config.TLSConfig{Enabled: true, CertFile: filepath.Join(e.RepoDir, "certs", "cert.pem"), KeyFile: filepath.Join(e.RepoDir, "certs", "key.pem")}
+			sys, err := startSys(cfg, bes, true)
+			if err != nil {
+				o.Inconcl("startSys: %v", err)
+				return
+			}
+			defer sys.Close()
+			h2 := &http.Client{Timeout: 30 * time.Second, Transport: &http.Transport{TLSClientConfig: &tls.Config{InsecureSkipVerify: true}, ForceAttemptHTTP2: true, DisableCompression: true},
+				CheckRedirect: func(*http.Request, []*http.Request) error { return http.ErrUseLastResponse }}
+			h1 := &http.Client{Timeout: 30 * time.Second, Transport: &http.Transport{DisableCompression: true}, CheckRedirect: func(*http.Request, []*http.Request) error { return http.ErrUseLastResponse }}
+			cname := fmt.Sprintf("tls+h2 %s chain=%q ids=%v", c.Strategy, c.Chain, c.IDs)
+			all := c01Exchanges(e, c01Cfg{Strategy: c.Strategy, Chain: c.Chain, IDs: c.IDs, Batch: 99})
+			for xi, x := range all {
+				if x.Stream || len(x.Script.Interim) > 0 || len(x.Req.Trailers) > 0 || x.Req.Method == "PURGE" && false {
+					continue // streaming timing, 1xx and request trailers are decided by the raw-socket part
+				}
+				if xi%3 != 0 && xi > 120 {
+					continue
+				}
+				if strings.ContainsAny(x.Req.Target, " ") {
+					continue
+				}
+				do := func(cl *http.Client, base, xid string) (*http.Response, []byte, error) {
+					var body io.Reader
+					if x.Req.BodyLen > 0 || x.Req.Method == "POST" || x.Req.Method == "PUT" || x.Req.Method == "PATCH" {
+						b := vh.GenBody(x.Req.BodySeed, 0, x.Req.BodyLen, false)
+						if x.Req.Chunked {
+							body = unknownLenBytes{bytes.NewReader(b)}
+						} else {
+							body = bytes.NewReader(b)
+						}
+					}
+					req, err := http.NewRequest(x.Req.Method, base+x.Req.Target, body)
+					if err != nil {
+						return nil, nil, err
+					}
+					req.Host = "example.test"
+					for _, h := range x.Req.Headers {
+						if strings.EqualFold(h[0], "Connection") || strings.EqualFold(h[0], "X-Hop") {
+							continue // connection-specific fields are not allowed in HTTP/2
+						}
+						req.Header.Add(h[0], h[1])
+					}
+					req.Header.Set(vh.ScriptHeader, x.Script.Encode())
+					req.Header.Set(vh.XIDHeader, xid)
+					if req.Header.Get("User-Agent") == "" {
+						req.Header.Set("User-Agent", "verif-client") // the default differs between Go's HTTP/1.1 and HTTP/2 clients
+					}
+					resp, err := cl.Do(req)
+					if err != nil {
+						return nil, nil, err
+					}
+					b, err := io.ReadAll(resp.Body)
+					resp.Body.Close()
+					return resp, b, err
+				}
+				find := func(xid string) *vh.Arrival {
+					for _, b := range bes {
+						for _, a := range b.Arrivals() {
+							if a.XID == xid {
+								a := a
+								return &a
+							}
+						}
+					}
+					return nil
+				}
+				dxid, pxid := fmt.Sprintf("d%d", xi), fmt.Sprintf("p%d", xi)
+				dr, db, derr := do(h1, bes[0].URL, dxid)
+				pr, pb, perr := do(h2, "https://"+sys.Addr, pxid)
+				da, pa := find(dxid), find(pxid)
+				for _, b := range bes {
+					b.Reset()
+				}
+				if derr != nil || da == nil {
+					continue // the reference exchange itself is not possible with a net/http client (e.g. invalid target)
+				}
+				o.Eval(1)
+				o.Distinct(cname + "|" + x.Label)
+				ctx := fmt.Sprintf("[%s] %s", cname, x.Label)
+				viol := func(kind, detail string) {
+					o.Viol("C01|h2|"+kind, ctx+": "+detail, map[string]any{"exchange": x, "config": c})
+				}
+				if perr != nil || pa == nil {
+					viol("failed", fmt.Sprintf("the exchange works directly but through Helios over HTTP/2: err=%v, reached backend=%v", perr, pa != nil))
+					continue
+				}
+				if pr.Proto != "HTTP/2.0" {
+					o.Inconcl("%s: negotiated %s", ctx, pr.Proto)
+					continue
+				}
+				if pa.Method != da.Method || pa.URI != da.URI || pa.Host != da.Host {
+					viol("request-line", fmt.Sprintf("%s %q Host %q -> %s %q Host %q", da.Method, trunc(da.URI, 80), da.Host, pa.Method, trunc(pa.URI, 80), pa.Host))
+				}
+				if pa.BodyLen != da.BodyLen || pa.BodyHash != da.BodyHash {
+					viol("request-body", fmt.Sprintf("request body %d -> %d bytes", da.BodyLen, pa.BodyLen))
+				}
+				drop := map[string]bool{"x-forwarded-for": true, "content-length": true, "user-agent": false, "accept-encoding": false, strings.ToLower(vh.XIDHeader): true}
+				if c.IDs {
+					for _, k := range []string{"x-request-id", "x-trace-id"} {
+						if da.Header.Get(k) == "" {
+							drop[k] = true
+						}
+					}
+				}
+				dh, ph := lowerMulti(headerToPairs(da.Header), drop), lowerMulti(headerToPairs(pa.Header), drop)
+				for _, m := range []map[string][]string{dh, ph} {
+					// HTTP/2 may carry Cookie in several fields; they are joined with "; " towards HTTP/1.1 (RFC 9113 8.2.3)
+					if c := m["cookie"]; len(c) > 1 {
+						m["cookie"] = []string{strings.Join(c, "; ")}
+					}
+				}
+				if d := diffMulti(dh, ph); d != "" {
+					viol("request-headers|"+sigOf(d), "request headers seen by the backend: "+d)
+				}
+				if pr.StatusCode != dr.StatusCode {
+					viol("status", fmt.Sprintf("status %d -> %d", dr.StatusCode, pr.StatusCode))
+				}
+				if string(pb) != string(db) {
+					viol("response-body", fmt.Sprintf("response body %d -> %d bytes", len(db), len(pb)))
+				}
+				dropR := map[string]bool{"date": true, "content-length": true, "x-request-id": c.IDs, "x-trace-id": c.IDs}
+				if d := diffMulti(lowerMulti(headerToPairs(dr.Header), dropR), lowerMulti(headerToPairs(pr.Header), dropR)); d != "" {
+					viol("response-headers|"+sigOf(d), "response headers seen by the client: "+d)
+				}
+				if d := diffMulti(lowerMulti(headerToPairs(dr.Trailer), nil), lowerMulti(headerToPairs(pr.Trailer), nil)); d != "" {
+					viol("response-trailers", "response trailers: "+d)
+				}
+				o.Obs("h2_exchanges_compared", 1)
+				if xi == 5 && c.Strategy == "round_robin" && c.Chain == "" {
+					o.Sample(map[string]any{"part": "tls-http2", "config": c, "exchange": x.Label, "proto": pr.Proto, "status": pr.StatusCode})
+				}
+			}
+		})
+}
+
+type unknownLenBytes struct{ r *bytes.Reader }
+
+func (u unknownLenBytes) Read(p []byte) (int, error) { return u.r.Read(p) }
